@@ -82,12 +82,14 @@ def _(e, c, a):
 @model(r'String::into_bytes$|str::<impl str>::as_bytes$|String::as_bytes$|str::<impl str>::bytes$|<(std::string::)?String as Into<Vec<u8>>>::into$|<Vec<u8> as From<(std::string::)?String>>::from$|<Vec<u8> as From<&str>>::from$')
 def _(e, c, a):
     parts = str_parts(a[0])
+    if any(not isinstance(p, str) and is_sym(p.v) for p in parts):
+        tv = RVec([], 'strbytes', RStr(un(a[0]).s))
+        if c.rstrip().endswith('::bytes'): raise Unmodelled('byte iteration over symbolic number text')
+        return SliceRef(tv) if c.rstrip().endswith('as_bytes') else tv
     cells = []
     for p in parts:
         if isinstance(p, str): cells.extend(Cell(b) for b in p.encode())
-        else:
-            if is_sym(p.v): raise Unmodelled('bytes of symbolic number text')
-            cells.extend(Cell(b) for b in str(p.v).encode())
+        else: cells.extend(Cell(b) for b in str(p.v).encode())
     v = RVec(cells, 'bytes')
     if c.rstrip().endswith('::bytes'): return PyIter([x.v for x in cells])
     if c.rstrip().endswith('as_bytes'): return SliceRef(v)
@@ -105,7 +107,9 @@ def bytes_to_str(e, v):
 
 @model(r'String::from_utf8$|^std::from_utf8$|str::from_utf8$')
 def _(e, c, a):
-    cells = deref_vec(a[0]).cells
+    dv = deref_vec(a[0])
+    if dv.text is not None: return Ok(RStr(dv.text.s))
+    cells = dv.cells
     if any(is_sym(x.v) for x in cells):
         # symbolic bytes: ASCII or not decides validity of single bytes; fork on "all ascii"
         allascii = zand(z3.ULT(bv(x.v, 8), 128) for x in cells)
@@ -516,11 +520,17 @@ def render(e, fa):
             if spec.get('width') or spec.get('precision') is not None:
                 t = concrete_or_none(s)
                 if t is not None:
-                    wd = spec.get('width', 0); uv = un(val)
+                    wd = spec.get('width', 0); uv = un(val); fl = spec.get('flags', 0)
+                    fill = chr(fl & 0x1fffff) if fl & 0x1fffff else ' '
+                    align = (fl >> 29) & 3
+                    zero = (fl >> 24) & 1
                     if isinstance(uv, float) and spec.get('precision') is not None: t = '%.*f' % (spec['precision'], uv)
-                    if isinstance(uv, int) and not isinstance(uv, bool):
-                        t = t.rjust(wd, '0' if spec.get('flags', 0) else ' ')
-                    else: t = t.ljust(wd)
+                    elif spec.get('precision') is not None and isinstance(uv, RStr): t = t[:spec['precision']]
+                    isnum = isinstance(uv, (int, float)) and not isinstance(uv, bool)
+                    if zero and isnum: t = t.rjust(wd, '0')
+                    elif align == 1 or (align == 3 and isnum): t = t.rjust(wd, fill)
+                    elif align == 2: t = t.center(wd, fill)
+                    else: t = t.ljust(wd, fill)
                     s = RStr(t)
             parts.extend(str_parts(s))
         elif kind == 'debug':
